@@ -72,7 +72,7 @@ func (ex *Exec) loopHead(fr *Frame, b *ssa.BasicBlock, ord int, pred *ssa.BasicB
 		invs = c.LoopInv[ord]
 		dec = c.LoopDec[ord]
 	}
-	pkg := fr.fn.Pkg.Pkg
+	pkg := fnPkg(fr.fn)
 	evalInvs := func(s *State, goal bool) []string {
 		var out []string
 		for _, inv := range invs {
@@ -171,7 +171,7 @@ func (ex *Exec) loopHead(fr *Frame, b *ssa.BasicBlock, ord int, pred *ssa.BasicB
 	// objects that existed at function entry unchanged (fresh objects may be written freely)
 	var framed []string
 	if tc := ex.topContract(); tc != nil && tc.HasMod && !ws.all {
-		menv := ex.newEnv(st, nil, vc.fn.Pkg.Pkg, fr)
+		menv := ex.newEnv(st, nil, fnPkg(vc.fn), fr)
 		mods := ex.resolveModifies(tc, menv)
 		if !mods.all {
 			for _, h := range sortedKeys(ws.heaps) {
